@@ -452,7 +452,7 @@ def shrink(cbin, ops, upto):
     return small
 
 
-def report_failure(ctx, cbin, mbin, h, res, origin):
+def report_failure(ctx, cbin, mbin, h, res, origin, config="packed"):
     res = c_fails(cbin, h.ops)          # confirm on a fresh process, alone
     if res is None:
         return False
@@ -463,13 +463,14 @@ def report_failure(ctx, cbin, mbin, h, res, origin):
         small, res2 = h.ops[:j + 1], res
     _, c_full, c_err = run_c(cbin, "H x\n" + "\n".join(small) + "\n", full=True, timeout=60)
     _, m_full, _ = run_m(mbin, "H x\n" + "\n".join(small) + "\n", full=True, timeout=60)
-    what = "a_avl history of %d ops (%s): %s" % (len(small), " ; ".join(small[:12]) + (" ..." if len(small) > 12 else ""), res2[1])
+    what = "a_avl [%s configuration] history of %d ops (%s): %s" % (
+        config.split()[0], len(small), " ; ".join(small[:12]) + (" ..." if len(small) > 12 else ""), res2[1])
     ctx.report(key="avl/" + "_".join(res2[1].split()[:3])[:40], what=what,
                replay={"history": small, "failing_op_index": res2[0], "violation": res2[1],
-                       "origin_history": h.name, "origin": origin,
+                       "origin_history": h.name, "origin": origin, "configuration": config,
                        "c_output_full": c_full.splitlines(), "model_output_full": m_full.splitlines(),
                        "c_stderr": c_err[-1500:],
-                       "how_to_replay": "printf 'H x\\n<ops one per line>\\n' | build/C01/avl_drv full"},
+                       "how_to_replay": "printf 'H x\\n<ops one per line>\\n' | build/C01/avl_drv[_unpacked] full"},
                found_input=True)
     return True
 
@@ -480,6 +481,24 @@ def build(ctx):
     ml = ctx.extract("C01/Extract.v", ["C01/extracted/avl_model.ml", "C01/extracted/avl_model.mli"])
     mbin = ctx.ocaml_build("avl_mdrv", ml[::-1] + [HARN / "avl_mdrv.ml"])
     return cbin, mbin
+
+
+PACKED = "packed (A_SIZE_POINTER 8: factor in the low bits of parent_)"
+UNPACKED = "unpacked (A_SIZE_POINTER 1: separate parent / factor fields)"
+
+
+def build_unpacked(ctx):
+    """Second configuration of the same sources: the #else /* !A_SIZE_POINTER */ arms of avl.h / avl.c
+    (separate `parent` and `factor` fields), selected by A_SIZE_POINTER <= 3; a_uptr stays 64 bit.
+    The later -DA_HAVE_H on the command line overrides the one ctx.cc generates."""
+    cfg1 = ctx.build / "cfg_unpacked.h"
+    txt1 = ctx.cfg_header().read_text().replace("#define A_SIZE_POINTER 8", "#define A_SIZE_POINTER 1")
+    if "#define A_SIZE_POINTER 1" not in txt1:
+        raise vlib.CheckError("cannot derive the unpacked configuration header")
+    if not cfg1.exists() or cfg1.read_text() != txt1:
+        cfg1.write_text(txt1)
+    return ctx.cc("avl_drv_unpacked", [HARN / "avl_drv.c"], repo_srcs=["avl.c"], mode="asan",
+                  defines=['A_HAVE_H="%s"' % cfg1])
 
 
 def run(ctx):
@@ -498,6 +517,12 @@ def run(ctx):
         else:
             ctx.cov["trusted_base"].append("coqchk -o LibaV.Properties_C01: re-checked by the standalone kernel, Axioms: <none>")
     cbin, mbin = build(ctx)
+    configs = [(PACKED, cbin)]
+    try:
+        configs.append((UNPACKED, build_unpacked(ctx)))
+    except vlib.CheckError as e:
+        ctx.tie_broken("the unpacked configuration (A_SIZE_POINTER 1: separate parent/factor fields) of avl.c no longer "
+                       "builds: " + str(e)[-600:])
     t0 = time.time()
     hs, n_corpus = gen_cases(ctx)
     nops = sum(len(h.ops) for h in hs)
@@ -514,13 +539,11 @@ def run(ctx):
     if cur:
         chunks.append(cur)
 
-    def work(chunk):
-        text = hist_text(chunk)
-        rc2, m_out, m_err = run_m(mbin, text)
+    def run_c_chunk(cb, chunk, text):
         # the C may abort (sanitizer) inside a history: keep its partial output, restart after it
         c_groups, crashed, start, restarts = [], [], 0, 0
         while start < len(chunk):
-            rc, c_out, c_err = run_c(cbin, text if start == 0 else hist_text(chunk[start:]))
+            rc, c_out, c_err = run_c(cb, text if start == 0 else hist_text(chunk[start:]))
             g = split_out(c_out)
             if rc == 0 and len(g) == len(chunk) - start:
                 c_groups.extend(g)
@@ -533,7 +556,25 @@ def run(ctx):
             if restarts > 40:
                 c_groups.extend([None] * (len(chunk) - start))     # not run
                 break
-        return chunk, c_groups, crashed, rc2, m_out, m_err
+        return c_groups, crashed
+
+    def unpacked_wanted(ci, chunk):
+        # thorough: every batch; quick: corpus + exhaustive small histories + every other remaining chunk
+        if not ctx.quick or ci % 2 == 0:
+            return True
+        return any(h.name.split("/")[0].startswith(("corpus", "perm", "seq3", "seq4")) for h in chunk[:1] + chunk[-1:])
+
+    def work(arg):
+        ci, chunk = arg
+        text = hist_text(chunk)
+        rc2, m_out, m_err = run_m(mbin, text)
+        per_cfg = []
+        for label, cb in configs:
+            if label == UNPACKED and not unpacked_wanted(ci, chunk):
+                continue
+            cg, crashed = run_c_chunk(cb, chunk, text)
+            per_cfg.append((label, cb, cg, crashed))
+        return chunk, per_cfg, rc2, m_out, m_err
 
     tags = {}
     distinct = nontrivial = 0
@@ -542,8 +583,9 @@ def run(ctx):
     oracle_ops = 0
     t_or = 0.0
     not_run = [0]
+    ops_by_cfg = {}
     with ThreadPoolExecutor(max_workers=max(2, min(12, vlib.NPROC))) as ex:
-        for chunk, cg, crashed, rc2, m_out, m_err in ex.map(work, chunks):
+        for chunk, per_cfg, rc2, m_out, m_err in ex.map(work, list(enumerate(chunks))):
             for ln in m_err.splitlines():
                 f = ln.split()
                 if len(f) == 3 and f[0] == "TAG":
@@ -554,19 +596,25 @@ def run(ctx):
             if rc2 != 0:
                 raise vlib.CheckError("model driver failed: " + m_err[-500:])
             mg = split_out(m_out)
-            crash_idx = dict((i, (rc, err)) for i, rc, err in crashed)
-            for idx, h in enumerate(chunk):
-                cl = cg[idx] if idx < len(cg) else None
-                ml_ = mg[idx] if idx < len(mg) else []
-                if cl is None:
-                    not_run[0] += 1
-                elif idx in crash_idx:
-                    bad.append((h, "C driver aborted (status %d) at op %d: %s" % (
-                        crash_idx[idx][0], len(cl), " ".join(crash_idx[idx][1].split())[:300]), cl))
-                elif cl != ml_:
-                    d = vlib.first_diff(cl, ml_)
-                    bad.append((h, "op %d: C '%s' vs model '%s'" % (
-                        d, (cl[d] if d < len(cl) else "<no output>")[:120], (ml_[d] if d < len(ml_) else "<none>")[:120]), cl))
+            for label, cb, cg_, crashed in per_cfg:
+                crash_idx = dict((i, (rc, err)) for i, rc, err in crashed)
+                short = label.split()[0]
+                for idx, h in enumerate(chunk):
+                    cl = cg_[idx] if idx < len(cg_) else None
+                    ml_ = mg[idx] if idx < len(mg) else []
+                    if cl is None:
+                        not_run[0] += 1
+                        continue
+                    ops_by_cfg[label] = ops_by_cfg.get(label, 0) + len(h.ops)
+                    if idx in crash_idx:
+                        bad.append((h, "[%s] C driver aborted (status %d) at op %d: %s" % (
+                            short, crash_idx[idx][0], len(cl), " ".join(crash_idx[idx][1].split())[:300]), cl, label, cb))
+                    elif cl != ml_:
+                        d = vlib.first_diff(cl, ml_)
+                        bad.append((h, "[%s] op %d: C '%s' vs model '%s'" % (
+                            short, d, (cl[d] if d < len(cl) else "<no output>")[:120],
+                            (ml_[d] if d < len(ml_) else "<none>")[:120]), cl, label, cb))
+            cg = per_cfg[0][2]
             # self-test of the oracle + direct evidence: the property evaluated on the C output of a sample
             t1 = time.time()
             stride = 1 if ctx.quick else 4
@@ -576,7 +624,7 @@ def run(ctx):
                     res = oracle(h.ops, cg[idx])
                     oracle_ops += len(h.ops)
                     if res is not None and not any(b[0] is h for b in bad):
-                        bad.append((h, "oracle: " + res[1], cg[idx]))
+                        bad.append((h, "oracle: " + res[1], cg[idx], PACKED, cbin))
             t_or += time.time() - t1
             for idx, h in enumerate(chunk):
                 if idx < len(cg) and cg[idx]:
@@ -603,6 +651,8 @@ def run(ctx):
          "every insertion order of 6 keys x 60 sampled removal orders; of 7 keys x 12",
          "every insert/remove sequence of length 6 over 3 keys and over 4 keys (fresh node per insert)"])
     ctx.cov["corpus_histories"] = n_corpus
+    ctx.cov["configurations"] = [c[0] for c in configs]
+    ctx.cov["ops_compared_per_configuration"] = ops_by_cfg
     ctx.cov["model_branch_hits"] = dict(sorted(tags.items()))
     missing = [t for t in ALL_TAGS if not tags.get(t)]
     ctx.cov["model_branches_not_reached"] = missing
@@ -627,16 +677,16 @@ def run(ctx):
         # search: the property itself on the C output of the disagreeing histories (shortest first), then a fresh batch
         found = 0
         seen_msgs = set()
-        for h, why, cl in sorted(bad, key=lambda b: len(b[0].ops))[:60]:
+        for h, why, cl, label, cb in sorted(bad, key=lambda b: len(b[0].ops))[:60]:
             res = oracle(h.ops, cl)
             if res is None:
-                res = c_fails(cbin, h.ops)
+                res = c_fails(cb, h.ops)
             if res is not None:
-                cat = " ".join(res[1].split(":")[-1].split()[:4])
+                cat = label.split()[0] + " " + " ".join(res[1].split(":")[-1].split()[:4])
                 if cat in seen_msgs and found >= 1:
                     continue
                 seen_msgs.add(cat)
-                if report_failure(ctx, cbin, mbin, h, res, why):
+                if report_failure(ctx, cb, mbin, h, res, why, label):
                     found += 1
                 if found >= 3:
                     break
@@ -648,9 +698,11 @@ def run(ctx):
                 kr = rng.choice([8, 64, 300, 1 << 20])
                 h = gen_random(rng, "search/%d" % i, rng.randint(50, 1500), kr, rng.choice(["mix", "growdrain", "saw"]))
                 i += 1
-                res = c_fails(cbin, h.ops)
-                if res is not None and report_failure(ctx, cbin, mbin, h, res, "fresh random search batch"):
-                    found += 1
+                for label, cb in configs:
+                    res = c_fails(cb, h.ops)
+                    if res is not None and report_failure(ctx, cb, mbin, h, res, "fresh random search batch", label):
+                        found += 1
+                        break
             ctx.log("search oracle: %d fresh histories, found %d" % (i, found))
 
 
@@ -660,7 +712,14 @@ def replay(ctx, path):
     obj = json.loads(Path(path).read_text())
     ops = obj["replay"]["history"]
     cbin, mbin = build(ctx)
-    res = c_fails(cbin, ops)
+    cfg = obj["replay"].get("configuration", "")
+    res = None
+    for label, cb in ([(UNPACKED, build_unpacked(ctx))] if cfg.startswith("unpacked") else
+                      [(PACKED, cbin), (UNPACKED, build_unpacked(ctx))]):
+        res = c_fails(cb, ops)
+        if res is not None:
+            cfg = label
+            break
     ctx.count(evaluations=len(ops))
     ctx.cov["rule"] = "replay of one recorded history on the C implementation, judged by the search oracle"
     ctx.sample({"history": ops[:20]})
@@ -668,7 +727,8 @@ def replay(ctx, path):
         ctx.log("replay: the property holds on this history now")
         return 0
     ctx.report(key="avl/replay", what="replayed history of %d ops: %s" % (len(ops), res[1]),
-               replay={"history": ops, "failing_op_index": res[0], "violation": res[1], "replayed_from": str(path)},
+               replay={"history": ops, "failing_op_index": res[0], "violation": res[1], "replayed_from": str(path),
+                       "configuration": cfg},
                found_input=True)
     return 1
 
@@ -680,10 +740,14 @@ META = {
             "the resident and leaves the tree equal, absent insert adds exactly it, remove deletes exactly it, search finds "
             "iff present), canonical heap has consistent parent links, logarithmic height. Tie: extracted model vs the real "
             "a_avl_insert/remove/search: left/right/parent/factor/root/return value compared after EVERY operation under "
-            "ASan+UBSan, exhaustive small histories + directed shapes + random; all 38 rebalancing case tags hit.",
+            "ASan+UBSan in BOTH node layouts of avl.h/avl.c (packed parent_ word, A_SIZE_POINTER 8, and the unpacked "
+            "#else arms with separate parent/factor fields, A_SIZE_POINTER 1), exhaustive small histories + directed shapes "
+            "+ random; all 38 rebalancing case tags hit.",
     "note": "Trusted: Coq kernel; extraction (ExtrOcamlBasic only) + OCaml/C drivers; the recursive flag-upward model stands "
             "for the C's bottom-up loop and the pointer surgery is not modelled statement by statement - both are transferred "
-            "to the C by the exact per-operation heap comparison (checked on the generated histories, not proved); only the "
-            "packed parent pointer configuration (A_SIZE_POINTER=8) is built. No axioms.",
+            "to the C by the exact per-operation heap comparison (checked on the generated histories, not proved); both node "
+            "layouts are built and compared with the same model output (the model has no layout): packed on every batch, "
+            "unpacked on corpus + exhaustive small histories + every other remaining batch in quick and on every batch in "
+            "thorough. No axioms.",
     "technique": "Rocq proof (structural induction, invariants, refinement to an abstract map) + extracted-model vs C exact heap correspondence",
 }
